@@ -528,6 +528,18 @@ fn group(p: &Pat, r: &mut Rng) -> String {
             format!("{{ {} OPTIONAL {} }}", left, inner)
         }
         Pat::Filter(e, a) => match &**a {
+            // two FILTERs of one group (the translator combines them with AND)
+            Pat::Filter(e1, inner) if matches!(&**inner, Pat::Bgp(_)) && r.chance(1, 2) => {
+                if let Pat::Bgp(tps) = &**inner {
+                    if r.chance(1, 3) {
+                        format!("{{ FILTER{} {} FILTER{} }}", paren(e1), tps_sparql(tps), paren(e))
+                    } else {
+                        format!("{{ {} FILTER{} FILTER{} }}", tps_sparql(tps), paren(e1), paren(e))
+                    }
+                } else {
+                    unreachable!()
+                }
+            }
             Pat::Bgp(tps) if r.chance(2, 3) => {
                 if r.chance(1, 4) {
                     format!("{{ FILTER{} {} }}", paren(e), tps_sparql(tps))
@@ -863,7 +875,7 @@ fn gen_query(r: &mut Rng, d: &Data, shape: &str) -> (Query, usize) {
             if vs.is_empty() { base } else {
                 let e = g.expr(&vs, 0);
                 let f = Pat::Filter(e, Box::new(base));
-                if !d.clean && g.r.chance(1, 10) {
+                if g.r.chance(1, 5) {
                     let e2 = g.expr(&vs, 1);
                     Pat::Filter(e2, Box::new(f))
                 } else {
@@ -1253,6 +1265,34 @@ fn corpus_sparql(r: &mut Rng, out: &mut Out) {
     run_update_case(out, &d1, &[(a.clone(), p.clone(), b.clone()), (c.clone(), p.clone(), a.clone())], false, "corpus-ok");
 }
 
+/// data sets larger than the scan chunk size (1024): the scan hands its rows over in two chunks
+fn corpus_big(r: &mut Rng, out: &mut Out) {
+    let p = T::Iri("u:p".into());
+    let q = T::Iri("u:q".into());
+    let subs: Vec<T> = (0..1050).map(|i| T::Iri(format!("u:s{}", i))).collect();
+    let objs: Vec<T> = (0..7).map(|i| T::Iri(format!("u:o{}", i))).collect();
+    let mut triples: Vec<(T, T, T)> = Vec::new();
+    for (i, s) in subs.iter().enumerate() {
+        triples.push((s.clone(), p.clone(), objs[i % 7].clone()));
+    }
+    triples.push((objs[3].clone(), q.clone(), T::Iri("u:z".into())));
+    let d = Data { subs: subs.clone(), preds: vec![p.clone(), q.clone()], objs: objs.clone(), triples, clean: true };
+    let v = |i: usize| Pos::Var(i);
+    let k = |t: &T| Pos::Const(t.clone());
+    let sel = |pat: Pat, proj: Proj| Query { distinct: false, proj, pat, order: vec![], offset: None, limit: None };
+    run_select_case(r, out, &d, &sel(Pat::Bgp(vec![Tp(v(0), k(&p), v(1))]), Proj::Count), 2, "corpus-big-count");
+    let mut q2 = sel(Pat::Bgp(vec![Tp(v(0), k(&p), v(1))]), Proj::Vars(vec![0]));
+    q2.offset = Some(1020);
+    q2.limit = Some(10);
+    run_select_case(r, out, &d, &q2, 2, "corpus-big-slice");
+    // a join whose left side arrives in two chunks
+    run_select_case(
+        r, out, &d,
+        &sel(Pat::Bgp(vec![Tp(v(0), k(&p), v(1)), Tp(v(1), k(&q), v(2))]), Proj::Count),
+        3, "corpus-big-join",
+    );
+}
+
 fn main() {
     let a = parse_args();
     quiet_panics();
@@ -1260,6 +1300,7 @@ fn main() {
     let mut r = Rng::new(a.seed);
     corpus_store(&mut r, &mut out);
     corpus_sparql(&mut r, &mut out);
+    corpus_big(&mut r, &mut out);
     // a third of the budget for store traces (they are large), the rest for queries and updates
     for i in 0..a.cases {
         match i % 6 {
